@@ -110,8 +110,11 @@ func (c *Conn) WriteTo(b []byte, to net.Addr) (int, error) {
 		return 0, net.ErrClosed
 	default:
 	}
+	short := false
 	if h := c.OnWrite; h != nil {
-		if err := h(b, to); err != nil {
+		if err := h(b, to); err == ErrShort {
+			short = true // the datagram leaves, but the socket reports one byte less and no error
+		} else if err != nil {
 			return 0, err
 		}
 	}
@@ -123,6 +126,9 @@ func (c *Conn) WriteTo(b []byte, to net.Addr) (int, error) {
 	c.all = append(c.all, OutF{o, false})
 	c.cond.Broadcast()
 	c.mu.Unlock()
+	if short {
+		return len(b) - 1, nil
+	}
 	return len(b), nil
 }
 
@@ -192,6 +198,9 @@ func (c *Conn) SetReadDeadline(t time.Time) error  { return nil }
 func (c *Conn) SetWriteDeadline(t time.Time) error { return nil }
 
 var ErrInjected = errors.New("injected write failure")
+
+// ErrShort, returned by OnWrite, makes WriteTo record the datagram and report a short count without an error.
+var ErrShort = errors.New("short write")
 
 // Goroutines returns, for every goroutine with a frame of the module under test, the list of its
 // function names (innermost first).
